@@ -190,5 +190,7 @@ theorem refinesL2 (nt : Bool) (d0 d1 : Nat) : Refines (kindL2 nt d0 d1) (kindSpe
   indexes := by simp [kindL2, kindSpec, idx2_eq]
   keys := by simp [kindL2, kindSpec, idx2_eq]
   len := rfl
+  resumeIdx := by simp [kindL2, kindSpec, idx2_eq, listResume_eq]
+  resumeKeys := by simp [kindL2, kindSpec, idx2_eq, listResume_eq]
 
 end SLV.MArr
